@@ -3,6 +3,8 @@ package signrig
 import (
 	"math/big"
 
+	"github.com/lianxiangcloud/linkchain/libs/crypto"
+
 	"verif/sim/kernel"
 )
 
@@ -23,6 +25,11 @@ type tamper struct {
 	sig   bool // edits signature values (else: a signed field)
 	apply func(x *tamperCtx, wt *wireTx) bool
 }
+
+// hotTamper: entries drawn more often than their share of the catalogue (the
+// twin encodings of a valid authorisation: the edits a third party can make
+// without any key and that leave the signer unchanged unless refused).
+var hotTamper = map[string]bool{"high-s-twin": true, "high-s-same-v": true}
 
 const (
 	mAcc  = 1<<kTx | 1<<kCreate | 1<<kTxt
@@ -538,6 +545,216 @@ var catalogue = []tamper{
 	}},
 }
 
+// keyOfSig finds the rig key that made signature i of wt (by the oracle's own
+// recovery), so that an entry can let that holder sign in another form.
+func (x *tamperCtx) keyOfSig(wt *wireTx, i int) *userKey {
+	sg, ok := getSig(wt, i)
+	if !ok {
+		return nil
+	}
+	rd := readSig(wt.signedFields(), sg, x.w.p)
+	if rd.st != sigOK {
+		return nil
+	}
+	return x.w.byAddr[rd.signer]
+}
+
+// legacyEdit: the holder of signature i signs the bare field list (V = 27/28,
+// which this tree accepts: known finding unbound-chain/legacy-v-no-chain-
+// parameter); a third party then edits the values with f.
+func legacyEdit(f func(x *tamperCtx, sg sigTriple) (sigTriple, bool)) func(x *tamperCtx, wt *wireTx) bool {
+	return func(x *tamperCtx, wt *wireTx) bool {
+		n := nSigs(wt)
+		if n == 0 {
+			return false
+		}
+		i := x.t.Int(n)
+		k := x.keyOfSig(wt, i)
+		if k == nil {
+			return false
+		}
+		sg, ok := f(x, indepSign(wt.signedFields(), nil, k.secret))
+		if !ok {
+			return false
+		}
+		setSig(wt, i, sg)
+		return true
+	}
+}
+
+func flipLegacy(v *big.Int) *big.Int { return new(big.Int).Sub(big.NewInt(55), v) } // 27 <-> 28
+
+func init() {
+	type le struct {
+		name string
+		hot  bool
+		f    func(x *tamperCtx, sg sigTriple) (sigTriple, bool)
+	}
+	for _, e := range []le{
+		// the malleable twin of a legacy-form signature: same key, same
+		// fields, other bytes
+		{"legacy-high-s-twin", true, func(x *tamperCtx, sg sigTriple) (sigTriple, bool) {
+			sg.s = new(big.Int).Sub(curveN, sg.s)
+			sg.v = flipLegacy(sg.v)
+			return sg, true
+		}},
+		{"legacy-high-s-same-v", true, func(x *tamperCtx, sg sigTriple) (sigTriple, bool) {
+			sg.s = new(big.Int).Sub(curveN, sg.s)
+			return sg, true
+		}},
+		{"legacy-wrong-recid", false, func(x *tamperCtx, sg sigTriple) (sigTriple, bool) {
+			sg.v = flipLegacy(sg.v)
+			return sg, true
+		}},
+		{"legacy-r-zero", false, func(x *tamperCtx, sg sigTriple) (sigTriple, bool) { sg.r = new(big.Int); return sg, true }},
+		{"legacy-s-zero", false, func(x *tamperCtx, sg sigTriple) (sigTriple, bool) { sg.s = new(big.Int); return sg, true }},
+		{"legacy-r-eq-N", false, func(x *tamperCtx, sg sigTriple) (sigTriple, bool) { sg.r = new(big.Int).Set(curveN); return sg, true }},
+		{"legacy-s-eq-N", false, func(x *tamperCtx, sg sigTriple) (sigTriple, bool) { sg.s = new(big.Int).Set(curveN); return sg, true }},
+		{"legacy-s-above-N", false, func(x *tamperCtx, sg sigTriple) (sigTriple, bool) {
+			sg.s = new(big.Int).Add(curveN, sg.s) // s + N: the same residue
+			return sg, sg.s.Cmp(two256) < 0
+		}},
+		{"legacy-r-above-N", false, func(x *tamperCtx, sg sigTriple) (sigTriple, bool) {
+			sg.r = new(big.Int).Add(curveN, sg.r)
+			return sg, sg.r.Cmp(two256) < 0
+		}},
+		{"legacy-s-33-bytes", false, func(x *tamperCtx, sg sigTriple) (sigTriple, bool) {
+			sg.s = new(big.Int).Add(sg.s, two256)
+			return sg, true
+		}},
+		{"legacy-v-plus-256", false, func(x *tamperCtx, sg sigTriple) (sigTriple, bool) {
+			sg.v = new(big.Int).Add(sg.v, big.NewInt(256))
+			return sg, true
+		}},
+	} {
+		catalogue = append(catalogue, tamper{name: e.name, kinds: mECDS, sig: true, apply: legacyEdit(e.f)})
+		if e.hot {
+			hotTamper[e.name] = true
+		}
+	}
+	catalogue = append(catalogue,
+		// other-chain form of the twin: V names another chain and s is high
+		tamper{name: "other-chain-high-s-twin", kinds: mECDS, sig: true, apply: func(x *tamperCtx, wt *wireTx) bool {
+			n := nSigs(wt)
+			if n == 0 {
+				return false
+			}
+			i := x.t.Int(n)
+			k := x.keyOfSig(wt, i)
+			if k == nil {
+				return false
+			}
+			q := x.otherChain()
+			sg := indepSign(wt.signedFields(), q, k.secret)
+			sg.s = new(big.Int).Sub(curveN, sg.s)
+			sg.v = flipRec(sg.v, q)
+			setSig(wt, i, sg)
+			return true
+		}},
+		tamper{name: "r-s-swapped", kinds: mECDS, sig: true, apply: sigEdit(func(x *tamperCtx, wt *wireTx, sg sigTriple) (sigTriple, bool) {
+			sg.r, sg.s = sg.s, sg.r
+			return sg, sg.r.Cmp(sg.s) != 0
+		})},
+		tamper{name: "s-negated-mod-2^256", kinds: mECDS, sig: true, apply: sigEdit(func(x *tamperCtx, wt *wireTx, sg sigTriple) (sigTriple, bool) {
+			sg.s = new(big.Int).Sub(two256, sg.s) // the two's complement, not the group negation
+			return sg, sg.s.Sign() > 0 && sg.s.Cmp(two256) < 0
+		})},
+		tamper{name: "r-plus-N-wrapped", kinds: mECDS, sig: true, apply: sigEdit(func(x *tamperCtx, wt *wireTx, sg sigTriple) (sigTriple, bool) {
+			// r + N taken modulo 2^256 (a verifier reducing r would see another value)
+			sg.r = new(big.Int).Mod(new(big.Int).Add(sg.r, curveN), two256)
+			return sg, true
+		})},
+		// the sender's place in an upgrade's signature list taken by the twin
+		// of his own signature while a co-signer's stays: order and count unchanged
+		tamper{name: "cut-all-sigs-high-s-twin", kinds: mCut, sig: true, apply: func(x *tamperCtx, wt *wireTx) bool {
+			n := nSigs(wt)
+			if n == 0 {
+				return false
+			}
+			for i := 0; i < n; i++ {
+				sg, ok := getSig(wt, i)
+				if !ok || sg.s.Sign() <= 0 || sg.s.Cmp(curveN) >= 0 {
+					return false
+				}
+				sg.s = new(big.Int).Sub(curveN, sg.s)
+				sg.v = flipRec(sg.v, x.w.p)
+				setSig(wt, i, sg)
+			}
+			return true
+		}},
+		tamper{name: "cut-sig-order-reversed", kinds: mCut, sig: true, apply: func(x *tamperCtx, wt *wireTx) bool {
+			l := wt.body.kids[1]
+			if len(l.kids) < 2 {
+				return false
+			}
+			for i, j := 0, len(l.kids)-1; i < j; i, j = i+1, j-1 {
+				l.kids[i], l.kids[j] = l.kids[j], l.kids[i]
+			}
+			return true
+		}},
+		tamper{name: "cut-no-sigs", kinds: mCut, sig: true, apply: func(x *tamperCtx, wt *wireTx) bool {
+			if len(wt.body.kids[1].kids) == 0 {
+				return false
+			}
+			wt.body.kids[1].kids = nil
+			return true
+		}},
+		tamper{name: "mst-no-sigs", kinds: mMst, sig: true, apply: func(x *tamperCtx, wt *wireTx) bool {
+			if len(wt.body.kids[1].kids) == 0 {
+				return false
+			}
+			wt.body.kids[1].kids = nil
+			return true
+		}},
+		tamper{name: "mst-sig-truncated", kinds: mMst, sig: true, apply: func(x *tamperCtx, wt *wireTx) bool {
+			l := wt.body.kids[1]
+			if len(l.kids) == 0 {
+				return false
+			}
+			e := l.kids[x.t.Int(len(l.kids))]
+			if len(e.kids[1].str) < 2 {
+				return false
+			}
+			e.kids[1] = bstr(e.kids[1].str[:len(e.kids[1].str)-1-x.t.Int(len(e.kids[1].str)-1)])
+			return true
+		}},
+		tamper{name: "mst-sig-under-other-validator", kinds: mMst, sig: true, apply: func(x *tamperCtx, wt *wireTx) bool {
+			// a genuine signature filed under the address of a validator that did not sign
+			l := wt.body.kids[1]
+			if len(l.kids) == 0 || len(x.w.vals) < 2 {
+				return false
+			}
+			e := l.kids[x.t.Int(len(l.kids))]
+			for _, v := range x.w.vals {
+				if v.addr != string(e.kids[0].str) {
+					e.kids[0] = bstr([]byte(v.addr))
+					return true
+				}
+			}
+			return false
+		}},
+		tamper{name: "mst-signed-by-strangers", kinds: mMst, sig: true, apply: func(x *tamperCtx, wt *wireTx) bool {
+			// valid ed25519 signatures over the right message by keys that are no validators,
+			// filed under the validators' addresses
+			msg, _, _, ok := mstMessage(wt.body.kids[0])
+			if !ok || len(x.w.vals) == 0 {
+				return false
+			}
+			sigs := &item{list: true}
+			for _, v := range x.w.vals {
+				priv := crypto.GenPrivKeyEd25519FromSecret(x.t.Bytes(16))
+				sg, err := priv.Sign(msg)
+				if err != nil {
+					return false
+				}
+				sigs.kids = append(sigs.kids, blist(bstr([]byte(v.addr)), bstr(sg.Bytes())))
+			}
+			wt.body.kids[1] = sigs
+			return true
+		}},
+	)
+}
+
 func (x *tamperCtx) otherChain() *big.Int {
 	switch x.t.Int(4) {
 	case 0:
@@ -573,6 +790,19 @@ func (x *tamperCtx) mutateF(idx []int) (*wireTx, string, bool, bool) {
 	}
 	wt := x.orig.w.clone()
 	e := &catalogue[idx[x.t.Int(len(idx))]]
+	if x.t.Bool(1, 6) {
+		// the twin encodings get a fixed share of the draws, whatever the size
+		// of the catalogue
+		var hot []int
+		for _, i := range idx {
+			if hotTamper[catalogue[i].name] {
+				hot = append(hot, i)
+			}
+		}
+		if len(hot) > 0 {
+			e = &catalogue[hot[x.t.Int(len(hot))]]
+		}
+	}
 	if !e.apply(x, wt) {
 		return nil, "", false, false
 	}
